@@ -26,7 +26,7 @@ Seeds == ndJsonDeserialize(IOEnv.SEEDS)
 
 MovesAt(tk) ==
   CASE tk.k = "word" -> {"upper", "lower", "mixed"}
-    [] tk.k = "blank" -> {"two", "tab"}
+    [] tk.k = "blank" -> {"two", "tab"} \cup (IF tk.drop THEN {"none"} ELSE {})    \* none: the blank is left out
     \* commentline: a comment on a line of its own follows; commentblank / commentlineblank: a trailing comment / a
     \* comment line, and then a blank line; jointight / joinleft: the colon without blanks / with a blank only before it
     [] tk.k = "eol" -> {"blankline", "comment", "trailblank", "commentline", "commentblank", "commentlineblank"}
@@ -37,7 +37,7 @@ MovesAt(tk) ==
 \* the token after a move: only layout attributes change
 Apply(tk, mv) ==
   CASE mv \in {"upper", "lower", "mixed"} -> [tk EXCEPT !.case = mv]
-    [] mv \in {"two", "tab"} -> [tk EXCEPT !.width = mv]
+    [] mv \in {"two", "tab", "none"} -> [tk EXCEPT !.width = mv]
     [] mv \in {"blankline", "comment", "trailblank", "commentline", "commentblank", "commentlineblank"} -> [tk EXCEPT !.extra = mv]
     [] mv \in {"pad", "padleft"} -> [tk EXCEPT !.width = mv]
     [] mv \in {"join", "jointight", "joinleft"} -> [tk EXCEPT !.k = "colon"]
